@@ -213,14 +213,17 @@ func (n Name) iaString() string {
 	return fmt.Sprintf("%d-%s", n.IA.ISD, RealAS(n.IA.AS))
 }
 
-// RealAS maps the abstract AS number (a small integer, 0 = wildcard) to the
-// AS number used in the real objects. Abstract numbers are kept small because
-// coqc spends its time parsing literals.
+// RealAS maps the abstract AS number to the AS number used in the real objects.
+// Abstract numbers are kept small because coqc spends its time parsing
+// literals: 0 = wildcard, 1..255 = themselves (BGP range, lower boundary),
+// 256..65535 = ff00:0:0 + a, anything larger = itself (2^32-1, 2^32, 2^48-1 ...).
 func RealAS(a uint64) addr.AS {
-	if a == 0 {
-		return 0
+	switch {
+	case a < 0x100 || a >= 0x10000:
+		return addr.AS(a)
+	default:
+		return addr.AS(0xff0000000000 + a)
 	}
-	return addr.AS(0xff0000000000 + a)
 }
 
 // T0 is the origin of the abstract time axis (whole seconds).
